@@ -8,7 +8,8 @@ TLC checks that it is Enc(form tree), has exactly the keys of its form, decodes 
 that the reloaded object has the same form tree and that == holds; the reloaded specification's
 enumeration is judged against the ground truth (Trace_Spec); packs round-trip slot by slot; strategy
 equality is compared with `kind and settings` for instances created directly, through a generic
-alias, by from_dict, by copy and by pickle.  (Bijection round trips are judged under C12.)
+alias, by from_dict, by copy and by pickle.  Bijections (also between specifications that match only up to
+unrolling a recursion) are dumped, reloaded and compared with the original on all objects up to size 5.
 """
 import copy
 import json
@@ -245,7 +246,23 @@ def run(tier: str, seed: int) -> int:
     vs = tlc.validate_traces(run_.wd, "Trace_Spec", specs, jvms=14, tag="reloaded", timeout=3000)
     run_.add_verdicts(vs, "Trace_Spec (enumeration of the reloaded specification)")
     run_.rejects(vs, {t["tid"]: t for t in specs}, lambda tr, rj: "reloaded-spec-terms")
-    run_.rule = ("every rule (nested ones included) of every campaign specification, the specification itself, 14 packs, strategy "
+    # bijections: dumped, reloaded, and compared with the original on every object up to size 5 (both directions)
+    from . import c12
+    bpairs = c12.unroll_pairs() + [((a[0], a[1], "default"), (b[0], b[1], "default")) for a, b in c12.two3_pairs()[: (10 if tier == "quick" else 200)]]
+    bpairs += [((c12.STARTS[i], pk1, "default"), (c12.STARTS[j], pk2, "default")) for i, j in ((0, 1), (2, 3), (4, 5), (7, 8), (11, 10), (12, 13), (18, 19), (0, 0), (6, 6), (14, 15), (16, 6))
+               for pk1 in ("plain", "syminf") for pk2 in ("plain", "inf")]
+    bres = [r for r in pmap(c12.pair_job, bpairs, procs=16, chunk=2) if r and any(e["op"] == "reload" for e in r["events"])]
+    btr = [{"tid": "bij:" + r["tid"], "classes": r["classes"], "events": [e for e in r["events"] if e["op"] == "reload"], "sig": "bijection-reload"} for r in bres]
+    btr = list({t["tid"]: t for t in btr}.values())
+    for t in btr:
+        run_.nt(t["tid"])
+    run_.events += len(btr)
+    run_.extra["bijections_reloaded"] = len(btr)
+    if btr:
+        vb = tlc.validate_traces(run_.wd, "Trace_Iso", btr, jvms=8, tag="bij-reload", timeout=3000)
+        run_.add_verdicts(vb, "Trace_Iso (reloaded bijections map like the originals)")
+        run_.rejects(vb, {t["tid"]: t for t in btr}, lambda tr, rj: "bijection-reload")
+    run_.rule = ("bijections between mirror / unrolled / three-letter pairs dumped and reloaded; every rule (nested ones included) of every campaign specification, the specification itself, 14 packs, strategy "
                  "equality for 6 strategy kinds x 7 ways of obtaining an equal instance + unequal pairs; non-trivial = a "
                  "specification with >= 3 rule forms, each pack / strategy event")
     run_.extra["rule_forms_seen"] = forms
